@@ -11,6 +11,8 @@ ACCESSORS = ["bank_code", "branch_code", "account_code", "national_checksum_digi
 
 
 def run(ctx, report):
+    from .premises import accessor_entries, stateless_premise
+    stateless_premise(ctx, report, 'R09-P1-stateless', ['national', 'generate', 'random'], extra=None, stop=(), outside=("schwifty.bic",))
     prog = ctx.program
     reg = ctx.registry
     facts = ctx.facts
@@ -126,6 +128,50 @@ def run(ctx, report):
 
     for recs, _ in run_recorded(["R09-readback", "R09-built-valid"], readback_body, countries):
         replay({"R09-readback": r_rb, "R09-built-valid": r_nat}, recs, cap=8)
+
+    # ------------------------------------------------------------------ R09-converse
+    # The converse clause starts from a BBAN that was *not* built by from_components: a structure-conforming text, every position non-zero and
+    # position-revealing, that passes the tree's own national check (for the countries without a registered algorithm every such text does;
+    # for the others the texts that pass are kept, the rest say nothing).  All components are read off it, it is rebuilt from all of them and
+    # must come back exactly, apart from positions that belong to no component (those are the zero filler).
+    r_cv = report.rule("R09-converse", floor=80, what="a structure-conforming BBAN that passes the national check is reproduced by from_components from all components read off it (positions outside every component become '0')")
+
+    def converse_body(cc, rules):
+        r_cv = rules["R09-converse"]
+        st = struct_positions(reg, cc)
+        fields = country_fields(reg, cc)
+        n = len(st)
+        covered = [False] * n
+        for c, (a, b, _) in fields.items():
+            for i in range(a, b):
+                covered[i] = True
+        done = 0
+        for salt in (0, 5, 2):
+            text = pattern(st, salt=salt)
+            res = h.bban_of(cc, text)
+            if res[0] != "ret" or not isinstance(res[1], Obj):
+                continue
+            obj = res[1]
+            if h.national_ok(obj) != ("ret", True):
+                continue     # not nationally valid: outside the clause
+            comps = h.components_of(obj, ACCESSORS)
+            if comps[0] != "ret":
+                r_cv.instance(None)
+                r_cv.finding(f"{cc}:read", f"{cc}: reading components of {text!r} raises {comps[1].name}", h.bban.where, witness=text)
+                continue
+            back = {c: v for c, v in comps[1].items() if v != ""}
+            res2 = h.from_components(cc, **back)
+            want = "".join(ch if covered[i] else "0" for i, ch in enumerate(text))
+            done += 1
+            r_cv.instance({"country": cc, "bban": text, "components": back, "rebuilt": _s(res2)} if cc in ("FO", "GB") and done == 1 else None)
+            if res2[0] != "ret" or res2[1] != want:
+                r_cv.finding(f"{cc}:converse", f"{cc}: the nationally valid BBAN {text!r} decomposes into {back}; rebuilding from these components gives {_s(res2)}, "
+                             f"not {want!r}", h.bban.methods["from_components"].where, witness={"country": cc, "bban": text})
+                break
+        return done
+
+    for recs, _ in run_recorded(["R09-converse"], converse_body, countries):
+        replay({"R09-converse": r_cv}, recs, cap=8)
 
     # ------------------------------------------------------------------ R09-funnel
     r_f = report.rule("R09-funnel", floor=15, what="for every country with computed national digits, whatever BBAN.random returns was produced by from_components (by evaluation)")
